@@ -73,37 +73,82 @@ def checkWitness (init : Store) (evs : List Event) (order : List Nat) : Bool :=
   order.length == evs.length && order.Nodup && evs.all (fun e => order.contains e.id) &&
   respectsRealTime evs order && replay evs init order
 
+/-- Outcome of the bounded search. -/
+inductive SRes
+  | found (w : List Nat)
+  | notFound
+  | exhausted          -- the node budget ran out: no verdict
+  deriving Repr
+
 /-- WGL-style search: pick any pending event that no other pending event precedes in real time, apply it if its result
-    matches, recurse; backtrack otherwise. Returns a witness order. -/
-def search : Nat → Store → List Event → Option (List Nat)
-  | 0, _, _ => none
-  | _, _, [] => some []
-  | fuel + 1, s, pending =>
+    matches, recurse; backtrack otherwise. `budget` bounds the number of nodes visited (the search is exponential in the
+    worst case); it is threaded through and returned. Returns a witness order. -/
+def tryEach (f : Event → Nat → SRes × Nat) : List Event → Nat → SRes × Nat
+  | [], b => (.notFound, b)
+  | e :: rest, b =>
+    if b = 0 then (.exhausted, 0) else
+    match f e (b - 1) with
+    | (.found w, b') => (.found w, b')
+    | (.exhausted, b') => (.exhausted, b')
+    | (.notFound, b') => tryEach f rest b'
+
+def searchB : Nat → Nat → Store → List Event → SRes × Nat
+  | 0, budget, _, _ => (.notFound, budget)
+  | _, budget, _, [] => (.found [], budget)
+  | fuel + 1, budget, s, pending =>
     let minimal := pending.filter fun e => pending.all fun p => p.id == e.id || !(p.ret < e.inv)
-    minimal.firstM fun e =>
+    tryEach (fun e b =>
       let (s', r) := apply s e.op
       if r == e.res then
-        (search fuel s' (pending.filter (·.id != e.id))).map (e.id :: ·)
-      else none
+        match searchB fuel b s' (pending.filter (·.id != e.id)) with
+        | (.found w, b') => (.found (e.id :: w), b')
+        | x => x
+      else (.notFound, b)) minimal budget
+
+def searchBudget : Nat := 200000
+
+/-- The unbounded-looking interface used by the examples: a witness, or none. -/
+def search (fuel : Nat) (s : Store) (pending : List Event) : Option (List Nat) :=
+  match (searchB fuel searchBudget s pending).1 with
+  | .found w => some w
+  | _ => none
 
 /-- Classification aid (NOT a verdict): the same search where a cleanup cycle may ALSO delete whatever the slot holds. A
     history that is linearizable only in this loosened sense shows a cleanup cycle deleting an entry that was not long
     expired at any instant of the cycle (a fresh write lost to a check-then-delete race). -/
-def searchLoose : Nat → Store → List Event → Bool
-  | 0, _, _ => false
-  | _, _, [] => true
-  | fuel + 1, s, pending =>
+def anyB (f : Event → Nat → Bool × Nat) : List Event → Nat → Bool × Nat
+  | [], b => (false, b)
+  | e :: rest, b =>
+    if b = 0 then (false, 0) else
+    match f e (b - 1) with
+    | (true, b') => (true, b')
+    | (false, b') => anyB f rest b'
+
+def searchLooseB : Nat → Nat → Store → List Event → Bool × Nat
+  | 0, b, _, _ => (false, b)
+  | _, b, _, [] => (true, b)
+  | fuel + 1, budget, s, pending =>
     let minimal := pending.filter fun e => pending.all fun p => p.id == e.id || !(p.ret < e.inv)
-    minimal.any fun e =>
-      let rest := pending.filter (·.id != e.id)
+    anyB (fun e b =>
+      let pend := pending.filter (·.id != e.id)
       let (s', r) := apply s e.op
-      (r == e.res && searchLoose fuel s' rest) ||
-      (e.op == .cleanup && searchLoose fuel (s.deleteAll).1 rest)
+      let r1 := if r == e.res then searchLooseB fuel b s' pend else (false, b)
+      if r1.1 then r1 else
+      if e.op == .cleanup then searchLooseB fuel r1.2 (s.deleteAll).1 pend else (false, r1.2)) minimal budget
+
+def searchLoose (fuel : Nat) (s : Store) (pending : List Event) : Bool :=
+  (searchLooseB fuel searchBudget s pending).1
 
 /-- The verdict the driver reports: a witness found by the search AND accepted by the independent witness check. -/
 def linearizable (init : Store) (evs : List Event) : Option (List Nat) :=
   match search (evs.length + 1) init evs with
   | some w => if checkWitness init evs w then some w else none
   | none => none
+
+/-- Did the bounded search give up (no verdict either way)? -/
+def inconclusive (init : Store) (evs : List Event) : Bool :=
+  match (searchB (evs.length + 1) searchBudget init evs).1 with
+  | .exhausted => true
+  | _ => false
 
 end Cache.Linz
